@@ -40,9 +40,33 @@ _CTX = re.compile(r"ctx=(Store|Del)\(\)")
 _DOC = re.compile(r"\\n\s+")
 
 
-def sdump(a):
-    """structure dump: ctx reset to Load, continuation-line indentation of string constants removed."""
-    return _DOC.sub(r'\\n', _CTX.sub('ctx=Load()', ast.dump(a)))
+_WS = re.compile(r'[ \t]+')
+
+
+def cont_docs(*trees):
+    """Values (runs of blanks collapsed) of the strings in docstring position (an expression statement) that are spread over
+    several source lines by backslash-newline: the documented re-indentation of docstring lines changes the blanks at the start
+    of their continuation lines, which are part of the value although no line break is."""
+    out = set()
+    for t in trees:
+        for a in (t if isinstance(t, list) else [t]):
+            for n in ast.walk(a):
+                if isinstance(n, ast.Expr) and isinstance(v := n.value, ast.Constant) and isinstance(v.value, str) and \
+                        getattr(v, 'end_lineno', None) is not None and v.end_lineno - v.lineno > v.value.count('\n'):
+                    out.add(_WS.sub(' ', v.value))
+    return out
+
+
+def sdump(a, cont=()):
+    """structure dump: ctx reset to Load, continuation-line indentation of string constants removed; docstring-position strings
+    whose blank-collapsed value is in `cont` (see cont_docs) are compared with their runs of blanks collapsed."""
+    d = ast.dump(a)
+    if cont:
+        for n in ast.walk(a):
+            if isinstance(n, ast.Expr) and isinstance(v := n.value, ast.Constant) and isinstance(v.value, str) and \
+                    (c := _WS.sub(' ', v.value)) in cont and c != v.value:
+                d = d.replace(f'Expr(value=Constant(value={v.value!r}', f'Expr(value=Constant(value={c!r}')
+    return _DOC.sub(r'\\n', _CTX.sub('ctx=Load()', d))
 
 
 def toks(src):
@@ -154,14 +178,16 @@ def check_extract(fst, pi, src, what, opts, res):
         return
     # structural faithfulness
     if what[0] == 'node':
-        if sdump(piece.a) != sdump(orig):
+        cont = cont_docs(piece.a, orig)
+        if sdump(piece.a, cont) != sdump(orig, cont):
             res.fail(cid, 'copy-structure-differs-from-original', f'src={src!r}\npiece={piece.src!r}\n' +
-                     O.first_diff(sdump(piece.a), sdump(orig)), params, rep)
+                     O.first_diff(sdump(piece.a, cont), sdump(orig, cont)), params, rep)
             return
     else:
         lst = first_list(piece.a, field)
         if orig is not None and lst is not None and orig and isinstance(orig[0], ast.AST) and piece.a.__class__.__name__ not in ('Dict', 'Compare', 'MatchMapping', 'arguments', 'BoolOp', 'MatchClass'):
-            g, w = [sdump(x) for x in lst], [sdump(x) for x in orig]
+            cont = cont_docs(lst, orig)
+            g, w = [sdump(x, cont) for x in lst], [sdump(x, cont) for x in orig]
             if g != w and not (len(orig) == 1 and sdump(piece.a) == w[0]):  # norm=True returns the lone element itself (MatchOr)
                 res.fail(cid, 'slice-structure-differs-from-original', f'src={src!r}\npiece={piece.src!r}\ngot={g}\nwant={w}', params, rep)
                 return
